@@ -523,6 +523,69 @@ fn family_stranded(opts: &Opts, sink: Sink) {
     }
 }
 
+/// C03: one microstep enters a final state (done.state.<parent> is queued at that moment) and, later in entry order,
+/// a state whose onentry raises an event: the done event is the older internal event. Observers on the parallel
+/// state make the order visible (whichever event is dequeued first leaves the parallel).
+fn family_done_vs_raise(opts: &Opts, sink: Sink) {
+    let mut idx = 0;
+    for final_region_first in [true, false] {
+        for producer_in_region in [false, true] {
+            for send_internal in [false, true] {
+                idx += 1;
+                let mut d = Doc::new();
+                let s0 = d.add(0, "s0", Kind::State);
+                let p = d.add(0, "p", Kind::Parallel);
+                let s9 = d.add(0, "s9", Kind::State);
+                let mk_final_region = |d: &mut Doc| -> (Nx, Nx, Nx) {
+                    let r = d.add(p, "r1", Kind::State);
+                    let a = d.add(r, "a", Kind::State);
+                    let f = d.add(r, "f1", Kind::Final);
+                    (r, a, f)
+                };
+                let mk_prod_region = |d: &mut Doc| -> (Nx, Nx, Nx) {
+                    let r = d.add(p, "r2", Kind::State);
+                    let b = d.add(r, "b", Kind::State);
+                    let c = d.add(r, "c", Kind::State);
+                    (r, b, c)
+                };
+                let ((_r1, a, f1), (r2, b, c)) = if final_region_first {
+                    let x = mk_final_region(&mut d);
+                    let y = mk_prod_region(&mut d);
+                    (x, y)
+                } else {
+                    let y = mk_prod_region(&mut d);
+                    let x = mk_final_region(&mut d);
+                    (x, y)
+                };
+                std_marks(&mut d);
+                let prod = if send_internal { Stmt::SendInternal("x".into()) } else { Stmt::Raise("x".into()) };
+                let host = if producer_in_region { r2 } else { c };
+                d.nodes[host].onentry.push(vec![prod]);
+                let mut push = |d: &mut Doc, src: Nx, ev: &str, t: Vec<Nx>, tag: &str| {
+                    let content = vec![Stmt::Mark(vec!["t".into(), d.nodes[src].name.clone(), tag.into()])];
+                    d.nodes[src].trans.push(Trans { events: vec![ev.into()], cond: None, targets: t, internal: false, content });
+                };
+                push(&mut d, s0, "e1", vec![f1, c], "multi");
+                push(&mut d, s0, "e2", vec![p], "default");
+                push(&mut d, a, "e1", vec![f1], "af");
+                push(&mut d, b, "e1", vec![c], "bc");
+                push(&mut d, p, "done.state.r1", vec![s9], "D");
+                push(&mut d, p, "x", vec![s0], "X");
+                push(&mut d, s9, "e2", vec![s0], "back");
+                push(&mut d, s9, "x", vec![], "late-x");
+                push(&mut d, s0, "x", vec![], "late-x0");
+                push(&mut d, s0, "done.state.r1", vec![], "late-d0");
+                sink(Item {
+                    label: format!("done-vs-raise #{} final_first={} in_region={} send={}", idx, final_region_first, producer_in_region, send_internal),
+                    doc: d,
+                    opts: opts.clone(),
+                    sig_hint: String::new(),
+                });
+            }
+        }
+    }
+}
+
 /// C06: documents with two history pseudo-states (all parent / type combinations), singles exploration.
 fn family_two_histories(n: usize, opts: &Opts, sink: Sink) {
     for f in shapes_upto(n) {
@@ -1057,6 +1120,7 @@ fn families(ctx: &Ctx, sink: Sink) {
             };
             family_queues(thorough, &o, sink);
             family_stranded(&o, sink);
+            family_done_vs_raise(&o, sink);
         }
         "C06" => {
             let o = Opts::default();
